@@ -11,9 +11,9 @@ git diff -- src > /tmp/seed-$id.diff
 [ -s /tmp/seed-$id.diff ] || { echo "no source change in $wt"; exit 2; }
 echo "== suite with the change"; cargo test --offline --lib 2>&1 | grep -E "^test result|FAILED|failed" | head -5
 echo "== demo with the change (must fail)"; cargo test --offline --test $demo 2>&1 | grep -E "^test result|panicked" | head -4
-git stash push -q -- src
+git apply -R /tmp/seed-$id.diff
 echo "== demo without the change (must pass)"; cargo test --offline --test $demo 2>&1 | grep -E "^test result" | head -2
-git stash pop -q
+git apply /tmp/seed-$id.diff
 mkdir -p /verif/seeded/$id
 cp /tmp/seed-$id.diff /verif/seeded/$id/patch.diff
 cp "$wt"/tests/$demo.rs /verif/seeded/$id/demo.rs 2>/dev/null
